@@ -53,6 +53,22 @@ CONFIG = {
         trivial=r"^(0|1|-1|-|0{16}|f{16})$",
         trusted_base=["Go integer semantics as modelled in Model/Bits.lean, Model/Signal.lean", "float32<->float64 hardware conversion (uninterpreted; only the bit pattern is modelled)"],
     ),
+    "C15": dict(
+        level_text="Kernel-checked Lean theorems (Props/C15.lean) over byte strings: every instance of the documented pattern in either letter case parses to the frame it denotes (C15_accept), the text of every valid frame is an upper-case pattern instance (C15_print_shape) and parses back to the identical frame (C15_roundtrip), parsing is total and atomic by construction with every partial Go operation guarded; the model is compared with Frame.String/UnmarshalString on all 2^11 standard IDs, extended boundary/random IDs, grammar-derived, mutated and random byte strings (destination pre-filled with a sentinel) on every run.",
+        level_note="Trusted: Lean kernel; Model/FrameText.lean models fmt %03X/%08X, strconv.ParseUint/Atoi, encoding/hex, strings.Split for the inputs that occur (validated by correspondence); harness and driver. The re-print clause for data frames is covered by correspondence only.",
+        level="proof", exhaustive=True,
+        exhaustive_what="all 2^11 standard IDs; remote lengths 0..255",
+        trivial=r"^(err|-)$",
+        trusted_base=["stdlib fmt/strconv/hex/strings modelled in Model/FrameText.lean, validated by correspondence"],
+    ),
+    "C16": dict(
+        level_text="Kernel-checked Lean theorems (Props/C16.lean): the encoder output of every valid frame is exactly the serialisation of the members the property lists (C16_members); decoding that object with the modelled encoding/json struct rules and UnmarshalJSON's logic returns the identical frame (C16_roundtrip_tree); remote without length is rejected; decoding is total. The text->tree step (a Lean model of encoding/json's scanner) is executable and compared with encoding/json on every run: JSON() output checked with json.Valid and json.Marshal, round trips directly and inside slices/maps/structs/pointers, and structured, mutated and fixed edge documents decoded on both sides.",
+        level_note="Trusted: Lean kernel; Model/Json.lean is a model of encoding/json (stdlib), validated by correspondence only; parseJson is not proved inverse to renderObj (stated in DESIGN.md); nesting depth > 10000 and invalid UTF-8 replacement are outside the model.",
+        level="proof", exhaustive=True,
+        exhaustive_what="all 2^11 standard IDs for the encoder; the fixed edge-document list",
+        trivial=r"^(err|-)$",
+        trusted_base=["encoding/json (stdlib) modelled in Model/Json.lean, validated by correspondence"],
+    ),
     "C17": dict(
         level_text="Kernel-checked Lean theorems (Props/C17.lean): the three checks are equivalent to the declarative fit predicates for all arguments, and a passing check confines reads/writes to the first frameLength bytes; the model is compared with the real functions on the complete 1,175,040-case domain on every run.",
         level_note="Trusted: Lean kernel; Model/Bits.lean (checkLE/checkBE/checkValue) validated by the exhaustive correspondence run; harness and driver.",
